@@ -87,7 +87,10 @@ fn c13_strategy(ctx: &Ctx) -> BoxedStrategy<SeqCase> {
             let allowed = !subscribed[k]
               && match kind {
                 ConnKind::Replay => hot || !ever_connected || src_done,
-                ConnKind::RefCount => !src_done && (hot || !ever_connected),
+                // (a new first subscriber after the hot source's terminal: ref_count subscribes
+                // the source again - "when its first subscriber arrives" - and the finished
+                // harness source has nothing to say to it)
+                ConnKind::RefCount => hot || (!src_done && !ever_connected),
                 ConnKind::Publish => !src_done,
               };
             if allowed {
@@ -267,7 +270,7 @@ pub fn properties() -> Vec<Property> {
     id: "C13",
     rule: "cases = call histories of length <= 12 (thorough 20) over {subscribe_i, unsubscribe_i, connect, disconnect, source emits v, source completes / errors} with 3 subscribers on publish / ref_count / replay over a hot source, a cold synchronous source or a per-subscription cold source (directly or through map); oracle = per-subscriber traces, number of source subscriptions ever made, liveness of every source subscription at the end and at most one alive, all equal to the reference state machine; non-trivial = a subscriber joins mid-stream, or a resubscribe after the count dropped to zero, or a synchronous source",
     assumptions: vec![
-      "after the source's own terminal only unsubscribe (replay: also late subscribe) is generated; replay over a cold source keeps its subscriber count above zero until the source finished (re-running a cold source into the same history is unspecified)",
+      "after the source's own terminal only unsubscribe (replay: also late subscribe; ref_count: also a new first subscriber, for whom the source is subscribed again) is generated; replay over a cold source keeps its subscriber count above zero until the source finished (re-running a cold source into the same history is unspecified)",
     ],
     subs: vec![mk_sub("histories", (2500, 50_000), c13_strategy, c13_check)],
   }]
